@@ -285,3 +285,429 @@ Proof.
       specialize (Hpre (c :: p) q). cbn [app concat] in Hpre. apply Hpre; [now rewrite E|discriminate|exact Hq].
 Qed.
 End Laws.
+
+(* ================= well-formed messages ================= *)
+
+(* the parser is waiting for more bytes of the current message, and so are the components around it *)
+Definition waiting (s : pstate) : Prop :=
+  match s with
+  | PFirst _ | PHead _ _ _ | PChunk _ _ _ _ => True
+  | PBody _ _ (Some _) (Some _) _ => True
+  | _ => False
+  end.
+
+Lemma waiting_splittable s : waiting s -> splittable s.
+Proof. destruct s as [| | ? ? [?|] [?|] ?| | | | |]; cbn; auto. Qed.
+
+(* ---- chunked transfer coding: grammar of a well-formed chunk stream ---- *)
+Record chunk := { c_line : list N; c_data : list N }.
+
+(* size line (hex size, optional extensions) without CRLF inside, announcing exactly the data that follow *)
+Definition wf_chunk (c : chunk) : Prop :=
+  split_on CRLF (c_line c ++ CRLF) = Some (c_line c, []) /\
+  chunk_size (c_line c) = Some (N.of_nat (length (c_data c))) /\
+  c_data c <> [].
+Definition chunk_bytes (c : chunk) : list N := c_line c ++ CRLF ++ c_data c ++ CRLF.
+
+(* last chunk line zl (size 0) and the trailer section T: either just CRLF, or trailer fields ended by an
+   empty line (T's first CRLFCRLF is its end, and T does not start with CRLF) *)
+Definition wf_last (zl T : list N) : Prop :=
+  split_on CRLF (zl ++ CRLF) = Some (zl, []) /\
+  chunk_size zl = Some 0 /\
+  (T = CRLF \/ (is_prefix CRLF T = false /\ exists tr, T = tr ++ CRLF2 /\ split_on CRLF2 T = Some (tr, []))).
+
+Definition chunked_bytes (cks : list chunk) (zl T : list N) : list N :=
+  concat (map chunk_bytes cks) ++ zl ++ CRLF ++ T.
+Definition chunked_body (cks : list chunk) : list N := concat (map c_data cks).
+
+Lemma line_prefix_none l p w : split_on CRLF (l ++ CRLF) = Some (l, []) -> l ++ CRLF = p ++ w -> w <> [] ->
+  split_on CRLF p = None.
+Proof.
+  intros Hl E Hw. apply (split_on_prefix_none CRLF CRLF_ne p w l []); [now rewrite <- E|].
+  apply (f_equal (@length N)) in E. rewrite !app_length in E. cbn in *.
+  destruct w; [contradiction|cbn in E; lia].
+Qed.
+
+Lemma line_found l r : split_on CRLF (l ++ CRLF) = Some (l, []) -> split_on CRLF ((l ++ CRLF) ++ r) = Some (l, r).
+Proof. intros Hl. apply (split_on_app CRLF CRLF_ne _ _ _ r Hl). Qed.
+
+Lemma chunk1_wait_in_chunk c p w : wf_chunk c -> chunk_bytes c = p ++ w -> w <> [] -> chunk1 p = CWait.
+Proof.
+  intros (Hl & Hs & Hd) E Hw. unfold chunk_bytes in E.
+  change (c_line c ++ CRLF ++ c_data c ++ CRLF) with (c_line c ++ CRLF ++ (c_data c ++ CRLF)) in E.
+  rewrite app_assoc in E. apply app_eq_app in E as [l [[E1 E2]|[E1 E2]]].
+  - destruct l as [|x l].
+    + rewrite app_nil_r in E1. subst p. unfold chunk1.
+      rewrite <- (app_nil_r (c_line c ++ CRLF)), (line_found _ [] Hl), Hs.
+      destruct (N.of_nat (length (c_data c)) =? 0) eqn:Z0.
+      { destruct (c_data c); [contradiction|cbn in Z0; lia]. }
+      cbn [length]. replace (N.of_nat 0 <? N.of_nat (length (c_data c)) + 2) with true by lia. reflexivity.
+    + unfold chunk1. rewrite (line_prefix_none _ p (x :: l) Hl E1); [reflexivity|discriminate].
+  - subst p. unfold chunk1. rewrite (line_found _ l Hl), Hs.
+    destruct (N.of_nat (length (c_data c)) =? 0) eqn:Z0.
+    { destruct (c_data c); [contradiction|cbn in Z0; lia]. }
+    apply (f_equal (@length N)) in E2. rewrite !app_length in E2. cbn in E2.
+    replace (N.of_nat (length l) <? N.of_nat (length (c_data c)) + 2) with true; [reflexivity|].
+    destruct w; [contradiction|cbn in E2; lia].
+Qed.
+
+Lemma chunk1_take_whole c r : wf_chunk c -> chunk1 (chunk_bytes c ++ r) = CTake (c_data c) r.
+Proof.
+  intros (Hl & Hs & Hd). unfold chunk_bytes, chunk1.
+  replace ((c_line c ++ CRLF ++ c_data c ++ CRLF) ++ r) with ((c_line c ++ CRLF) ++ (c_data c ++ CRLF ++ r))
+    by (rewrite <- !app_assoc; reflexivity).
+  rewrite (line_found _ _ Hl), Hs.
+  destruct (N.of_nat (length (c_data c)) =? 0) eqn:Z0.
+  { destruct (c_data c); [contradiction|cbn in Z0; lia]. }
+  destruct (N.of_nat (length (c_data c ++ CRLF ++ r)) <? N.of_nat (length (c_data c)) + 2) eqn:Lt.
+  { rewrite !app_length in Lt. cbn [length CRLF] in Lt. lia. }
+  rewrite Nat2N.id. rewrite firstn_app, Nat.sub_diag, firstn_all. cbn [firstn]. rewrite app_nil_r.
+  rewrite skipn_app. replace (length (c_data c) + 2 - length (c_data c))%nat with 2%nat by lia.
+  rewrite skipn_all2 by lia. reflexivity.
+Qed.
+
+Lemma last_wait zl T p w : wf_last zl T -> zl ++ CRLF ++ T = p ++ w -> w <> [] -> chunk1 p = CWait.
+Proof.
+  intros (Hl & Hs & HT) E Hw. rewrite app_assoc in E. apply app_eq_app in E as [l [[E1 E2]|[E1 E2]]].
+  - destruct l as [|x l].
+    + rewrite app_nil_r in E1. subst p. unfold chunk1.
+      rewrite <- (app_nil_r (zl ++ CRLF)), (line_found _ [] Hl), Hs. reflexivity.
+    + unfold chunk1. rewrite (line_prefix_none _ p (x :: l) Hl E1); [reflexivity|discriminate].
+  - subst p. unfold chunk1. rewrite (line_found _ l Hl), Hs. cbn [N.eqb].
+    destruct HT as [HT|(H0 & tr & HT & HS)].
+    + subst T. destruct l as [|a [|b l]].
+      * reflexivity.
+      * cbn in E2. inversion E2; subst. reflexivity.
+      * cbn in E2. inversion E2 as [[Ea Eb El]]. destruct l; [|discriminate].
+        cbn in El. subst w. contradiction.
+    + destruct (is_prefix CRLF l) eqn:P.
+      { rewrite E2, (is_prefix_app CRLF l w P) in H0. discriminate. }
+      cbn [orb]. rewrite (split_on_prefix_none CRLF2 CRLF2_ne l w tr []); [reflexivity|now rewrite <- E2|].
+      rewrite E2 in HT. apply (f_equal (@length N)) in HT. rewrite !app_length in HT. cbn in *.
+      destruct w; [contradiction|cbn in HT; lia].
+Qed.
+
+Lemma last_done zl T : wf_last zl T -> chunk1 (zl ++ CRLF ++ T) = CDone.
+Proof.
+  intros (Hl & Hs & HT). unfold chunk1. rewrite app_assoc, (line_found _ T Hl), Hs. cbn [N.eqb].
+  destruct HT as [HT|(H0 & tr & HT & HS)].
+  - subst T. reflexivity.
+  - rewrite HS, orb_true_r. reflexivity.
+Qed.
+
+Lemma chunked_prefix fl blk cks zl T : Forall wf_chunk cks -> wf_last zl T ->
+  forall f body0 p w, chunked_bytes cks zl T = p ++ w -> w <> [] -> (length p < f)%nat ->
+  exists body' x', chunk_adv f fl blk body0 p = PChunk fl blk body' x'.
+Proof.
+  intros Hc Hl. induction Hc as [|c cks Hc Hcs IH]; intros f body0 p w E Hw Lf.
+  - unfold chunked_bytes in E. cbn [map concat app] in E.
+    destruct f as [|f]; [lia|]. cbn [chunk_adv]. rewrite (last_wait zl T p w Hl E Hw). eauto.
+  - unfold chunked_bytes in E. cbn [map concat] in E. rewrite <- app_assoc in E.
+    fold (chunked_bytes cks zl T) in E.
+    destruct f as [|f]; [lia|]. cbn [chunk_adv].
+    apply app_eq_app in E as [l [[E1 E2]|[E1 E2]]].
+    + destruct l as [|x l].
+      * rewrite app_nil_r in E1. subst p. cbn [app] in E2. subst w.
+        rewrite <- (app_nil_r (chunk_bytes c)), (chunk1_take_whole c [] Hc).
+        apply (IH f (body0 ++ c_data c) [] (chunked_bytes cks zl T)); [reflexivity|exact Hw|].
+        unfold chunk_bytes in Lf. rewrite !app_length in Lf. cbn in *. lia.
+      * rewrite (chunk1_wait_in_chunk c p (x :: l) Hc E1); [eauto|discriminate].
+    + subst p. rewrite (chunk1_take_whole c l Hc).
+      apply (IH f (body0 ++ c_data c) l w E2 Hw).
+      unfold chunk_bytes in Lf. rewrite !app_length in Lf. cbn in *. lia.
+Qed.
+
+Lemma chunked_done fl blk cks zl T : Forall wf_chunk cks -> wf_last zl T ->
+  forall f body0, (length (chunked_bytes cks zl T) < f)%nat ->
+  chunk_adv f fl blk body0 (chunked_bytes cks zl T) = PDone fl blk (body0 ++ chunked_body cks).
+Proof.
+  intros Hc Hl. induction Hc as [|c cks Hc Hcs IH]; intros f body0 Lf.
+  - unfold chunked_bytes, chunked_body in *. cbn [map concat app] in *.
+    destruct f as [|f]; [lia|]. cbn [chunk_adv]. rewrite (last_done zl T Hl), app_nil_r. reflexivity.
+  - unfold chunked_bytes, chunked_body in *. cbn [map concat] in *. rewrite <- app_assoc in *.
+    destruct f as [|f]; [lia|]. cbn [chunk_adv]. rewrite (chunk1_take_whole c _ Hc).
+    rewrite IH; [now rewrite app_assoc|].
+    assert (Lc : (0 < length (chunk_bytes c))%nat) by (unfold chunk_bytes; rewrite !app_length; cbn; lia). rewrite app_length in Lf. lia.
+Qed.
+
+Section WF.
+Variable kind_resp : bool.
+Variable parse_fl : list N -> option bool.
+Variable parse_hd : list N -> option (option Z * bool).
+
+Notation feed := (feed kind_resp parse_fl parse_hd).
+Notation heads := (heads kind_resp parse_hd).
+Notation body_step := (body_step kind_resp).
+Notation run := (run kind_resp parse_fl parse_hd).
+
+(* the head of a well-formed message: first line L (no CRLF inside, accepted by the first-line parser),
+   header block H with at least one field (H ++ CRLFCRLF contains CRLFCRLF only at its end and does not
+   start with CRLF), accepted by the header parser with framing information (clen, chunked) *)
+Record wf_head (L H : list N) (i204 : bool) (clen : option Z) (chunked : bool) : Prop := {
+  wf_L : split_on CRLF (L ++ CRLF) = Some (L, []);
+  wf_fl : parse_fl L = Some i204;
+  wf_H : split_on CRLF2 (H ++ CRLF2) = Some (H, []);
+  wf_H0 : is_prefix CRLF (H ++ CRLF2) = false;
+  wf_hd : parse_hd H = Some (clen, chunked) }.
+
+(* the body B as sent, and the decoded body *)
+Definition wf_body (clen : option Z) (chunked : bool) (B body : list N) : Prop :=
+  match clen with
+  | Some n => Z.of_nat (length B) = n /\ body = B
+  | None => if chunked
+            then exists cks zl T, Forall wf_chunk cks /\ wf_last zl T /\
+                                  B = chunked_bytes cks zl T /\ body = chunked_body cks
+            else kind_resp = false /\ B = [] /\ body = []
+  end.
+
+Definition msg_bytes (L H B : list N) : list N := L ++ CRLF ++ (H ++ CRLF2) ++ B.
+
+Definition enter (L H : list N) (clen : option Z) (chunked : bool) (r : list N) : pstate :=
+  match clen with
+  | Some n => body_step L H (Some n) (Some n) [] r
+  | None => if chunked then chunk_adv (S (length r)) L H [] r
+            else body_step L H None (Some maxsize) [] r
+  end.
+
+Section Head.
+Variables (L H : list N) (i204 : bool) (clen : option Z) (chunked : bool).
+Hypothesis WH : wf_head L H i204 clen chunked.
+
+Lemma feed_first_prefix p w : L ++ CRLF = p ++ w -> w <> [] -> feed (PFirst []) p = PFirst p.
+Proof.
+  intros E Hw. cbn [HttpFraming.feed app]. now rewrite (line_prefix_none L p w (wf_L _ _ _ _ _ WH) E Hw).
+Qed.
+
+Lemma feed_head_prefix x w : H ++ CRLF2 = x ++ w -> w <> [] ->
+  feed (PFirst []) (L ++ CRLF ++ x) = PHead L i204 x.
+Proof.
+  intros E Hw. cbn [HttpFraming.feed app]. rewrite app_assoc, (line_found L x (wf_L _ _ _ _ _ WH)).
+  rewrite (wf_fl _ _ _ _ _ WH). unfold HttpFraming.heads.
+  destruct (list_eqb x CRLF) eqn:Ex.
+  - apply list_eqb_eq in Ex. subst x. pose proof (wf_H0 _ _ _ _ _ WH) as H0. rewrite E in H0.
+    rewrite (is_prefix_refl CRLF w) in H0. discriminate.
+  - rewrite (split_on_prefix_none CRLF2 CRLF2_ne x w H []); [reflexivity|rewrite <- E; apply (wf_H _ _ _ _ _ WH)|].
+    apply (f_equal (@length N)) in E. rewrite !app_length in E. cbn in *. destruct w; [contradiction|cbn in E; lia].
+Qed.
+
+Lemma feed_head_done r : feed (PFirst []) (L ++ CRLF ++ (H ++ CRLF2) ++ r) = enter L H clen chunked r.
+Proof.
+  cbn [HttpFraming.feed app]. rewrite app_assoc, (line_found L _ (wf_L _ _ _ _ _ WH)).
+  rewrite (wf_fl _ _ _ _ _ WH). unfold HttpFraming.heads.
+  destruct (list_eqb ((H ++ CRLF2) ++ r) CRLF) eqn:Ex.
+  - apply list_eqb_eq in Ex. apply (f_equal (@length N)) in Ex. rewrite !app_length in Ex. cbn in Ex. lia.
+  - rewrite (split_on_app CRLF2 CRLF2_ne _ _ _ r (wf_H _ _ _ _ _ WH)), (wf_hd _ _ _ _ _ WH).
+    cbn [app]. unfold enter. destruct clen as [n|]; [reflexivity|]. destruct chunked; reflexivity.
+Qed.
+
+(* no proper prefix of a well-formed message completes it (or breaks the parser) *)
+Lemma msg_prefix_waiting B :
+  (forall b1 w, B = b1 ++ w -> w <> [] -> waiting (enter L H clen chunked b1)) ->
+  forall p w, w <> [] -> msg_bytes L H B = p ++ w -> waiting (feed (PFirst []) p).
+Proof.
+  intros Hpre p w Hw E. unfold msg_bytes in E. rewrite app_assoc in E.
+  apply app_eq_app in E as [l [[E1 E2]|[E1 E2]]].
+  - destruct l as [|x l].
+    + rewrite app_nil_r in E1. subst p.
+      rewrite <- (app_nil_r (L ++ CRLF)), <- app_assoc.
+      rewrite (feed_head_prefix [] (H ++ CRLF2)); [exact I|reflexivity|destruct H; discriminate].
+    + rewrite (feed_first_prefix p (x :: l) E1); [exact I|discriminate].
+  - subst p. rewrite <- app_assoc. apply app_eq_app in E2 as [l2 [[E3 E4]|[E3 E4]]].
+    + destruct l2 as [|x l2].
+      * rewrite app_nil_r in E3. subst l. cbn [app] in E4. subst w.
+        rewrite <- (app_nil_r (H ++ CRLF2)). rewrite feed_head_done. apply (Hpre [] B eq_refl Hw).
+      * rewrite (feed_head_prefix l (x :: l2) E3); [exact I|discriminate].
+    + subst l. rewrite feed_head_done. apply (Hpre l2 w E4 Hw).
+Qed.
+
+Lemma enter_prefix B body : wf_body clen chunked B body ->
+  forall b1 w, B = b1 ++ w -> w <> [] -> waiting (enter L H clen chunked b1).
+Proof.
+  unfold wf_body, enter. intros WB b1 w E Hw. destruct clen as [n|].
+  - destruct WB as [Hn _]. subst B. rewrite app_length in Hn.
+    assert (Lw : (0 < length w)%nat) by (destruct w; [contradiction|cbn; lia]).
+    unfold HttpFraming.body_step. destruct b1 as [|x b1].
+    + cbn [length]. replace (n - Z.of_nat 0 <=? 0)%Z with false by (cbn in Hn; lia). exact I.
+    + replace (n - Z.of_nat (length (x :: b1)) <=? 0)%Z with false by lia. exact I.
+  - destruct chunked.
+    + destruct WB as (cks & zl & T & Hc & Hl & EB & _). subst B.
+      destruct (chunked_prefix L H cks zl T Hc Hl (S (length b1)) [] b1 w E Hw) as (b' & x' & E2); [lia|].
+      rewrite E2. exact I.
+    + destruct WB as (_ & EB & _). subst B. destruct b1; [|discriminate]. cbn in E. subst w. contradiction.
+Qed.
+
+Lemma enter_done B body : wf_body clen chunked B body -> enter L H clen chunked B = PDone L H body.
+Proof.
+  unfold wf_body, enter. intros WB. destruct clen as [n|].
+  - destruct WB as [Hn Eb]. subst body. unfold HttpFraming.body_step. destruct B as [|x B].
+    + cbn in Hn. subst n. reflexivity.
+    + replace (n - Z.of_nat (length (x :: B)) <=? 0)%Z with true by lia. reflexivity.
+  - destruct chunked.
+    + destruct WB as (cks & zl & T & Hc & Hl & EB & Eb). subst B body.
+      rewrite (chunked_done L H cks zl T Hc Hl); [reflexivity|lia].
+    + destruct WB as (K & EB & Eb). subst B body. unfold HttpFraming.body_step. now rewrite K.
+Qed.
+
+(* THE MESSAGE THEOREM: every segmentation of a well-formed message into non-empty reads ends in the same
+   completed state, carrying the first line, the header block and the decoded body *)
+Theorem message_segmentation B body : wf_body clen chunked B body ->
+  forall cs, Forall nonempty cs -> concat cs = msg_bytes L H B ->
+  run (PFirst []) cs = PDone L H body.
+Proof.
+  intros WB cs Hall E.
+  assert (Hne : cs <> []).
+  { intros ->. cbn in E. unfold msg_bytes in E. destruct L; discriminate. }
+  rewrite (run_segmentation kind_resp parse_fl parse_hd cs (PFirst []) Hne Hall).
+  - rewrite E. unfold msg_bytes. rewrite feed_head_done. now apply enter_done.
+  - intros p q Ec Hp Hq. apply waiting_splittable.
+    apply (msg_prefix_waiting B (enter_prefix B body WB) (concat p) (concat q)).
+    + subst cs. apply Forall_app in Hall as [_ Hq2]. destruct q as [|q0 q]; [contradiction|].
+      inversion Hq2; subst. cbn [concat]. unfold nonempty in *. destruct q0; [contradiction|discriminate].
+    + rewrite <- E, Ec, concat_app. reflexivity.
+Qed.
+
+Lemma message_prefix_waiting B body : wf_body clen chunked B body ->
+  forall p q, Forall nonempty (p ++ q) -> p <> [] -> q <> [] -> concat (p ++ q) = msg_bytes L H B ->
+  waiting (run (PFirst []) p).
+Proof.
+  intros WB p q Hall Hp Hq E.
+  assert (Wt : forall p' q', p' ++ q' = p ++ q -> q' <> [] -> waiting (feed (PFirst []) (concat p'))).
+  { intros p' q' Epq Hq'. apply (msg_prefix_waiting B (enter_prefix B body WB) (concat p') (concat q')).
+    - rewrite <- Epq in Hall. apply Forall_app in Hall as [_ Hq2]. destruct q' as [|q0 q']; [contradiction|].
+      inversion Hq2; subst. cbn [concat]. unfold nonempty in *. destruct q0; [contradiction|discriminate].
+    - rewrite <- E, <- Epq, concat_app. reflexivity. }
+  apply Forall_app in Hall as [Hp2 _].
+  rewrite (run_segmentation kind_resp parse_fl parse_hd p (PFirst []) Hp Hp2).
+  - apply (Wt p q eq_refl Hq).
+  - intros p1 p2 Ep Hp1 Hp2'. apply waiting_splittable. apply (Wt p1 (p2 ++ q)).
+    + now rewrite Ep, app_assoc.
+    + destruct p2; [contradiction|discriminate].
+Qed.
+End Head.
+End WF.
+
+(* ================= the components around the parser ================= *)
+Record message := { m_L : list N; m_H : list N; m_B : list N; m_body : list N }.
+
+Section Conn.
+Variable kind_resp : bool.
+Variable parse_fl : list N -> option bool.
+Variable parse_hd : list N -> option (option Z * bool).
+Variable emit : pstate -> option (list event).
+Hypothesis emit_wait : forall s, waiting s -> emit s = None.
+Hypothesis emit_done : forall fl blk body, emit (PDone fl blk body) = Some [EMsg fl blk body].
+
+Notation feed := (feed kind_resp parse_fl parse_hd).
+Notation run := (run kind_resp parse_fl parse_hd).
+Notation conn_run := (conn_run kind_resp parse_fl parse_hd emit).
+Notation conn_read := (conn_read kind_resp parse_fl parse_hd emit).
+
+Lemma conn_run_app a : forall s b,
+  conn_run s (a ++ b) = let '(s1, e1) := conn_run s a in let '(s2, e2) := conn_run s1 b in (s2, e1 ++ e2).
+Proof.
+  induction a as [|d a IH]; intros s b.
+  - cbn. destruct (conn_run s b). reflexivity.
+  - cbn [app HttpFraming.conn_run]. destruct (conn_read s d) as [s1 e1]. rewrite IH.
+    destruct (conn_run s1 a) as [s2 e2]. destruct (conn_run s2 b) as [s3 e3]. now rewrite app_assoc.
+Qed.
+
+Lemma conn_run_single : forall cs s fl blk body, cs <> [] ->
+  (forall p q, cs = p ++ q -> p <> [] -> q <> [] -> waiting (run s p)) ->
+  run s cs = PDone fl blk body ->
+  conn_run s cs = (PFirst [], [EMsg fl blk body]).
+Proof.
+  induction cs as [|c cs IH]; intros s fl blk body Hne Hw Hd; [contradiction|].
+  destruct cs as [|c2 cs].
+  - cbn in Hd. cbn. unfold HttpFraming.conn_read. rewrite Hd, emit_done. reflexivity.
+  - assert (W : waiting (feed s c)).
+    { apply (Hw [c] (c2 :: cs) eq_refl); discriminate. }
+    change (conn_run s (c :: c2 :: cs)) with
+      (let '(s1, e1) := conn_read s c in let '(s2, e2) := conn_run s1 (c2 :: cs) in (s2, e1 ++ e2)).
+    unfold HttpFraming.conn_read at 1. rewrite (emit_wait _ W).
+    assert (E0 : match feed s c with PCrash => [ECrash] | _ => [] end = []).
+    { destruct (feed s c); try reflexivity. contradiction. }
+    rewrite E0. rewrite (IH (feed s c) fl blk body); [reflexivity|discriminate| |exact Hd].
+    intros p q E Hp Hq. apply (Hw (c :: p) q); [now rewrite E|discriminate|exact Hq].
+Qed.
+
+Definition wf_message (m : message) : Prop :=
+  exists i clen ch, wf_head parse_fl parse_hd (m_L m) (m_H m) i clen ch /\
+                    wf_body kind_resp clen ch (m_B m) (m_body m).
+Definition message_bytes (m : message) : list N := msg_bytes (m_L m) (m_H m) (m_B m).
+Definition message_event (m : message) : event := EMsg (m_L m) (m_H m) (m_body m).
+
+(* a sequence of well-formed messages on one connection, each cut into reads in any way (no read spans
+   two messages): exactly one event per message, carrying exactly that message, and the connection is
+   back in its initial state after each *)
+Theorem keepalive_segmentation : forall ms css, Forall wf_message ms ->
+  Forall2 (fun m cs => Forall nonempty cs /\ concat cs = message_bytes m) ms css ->
+  conn_run (PFirst []) (concat css) = (PFirst [], map message_event ms).
+Proof.
+  intros ms css Hwf H2. induction H2 as [|m cs ms css [Hne Hc] H2 IH].
+  - reflexivity.
+  - inversion Hwf as [|? ? (i & clen & ch & WH & WB) Hwf']; subst.
+    cbn [concat map]. rewrite conn_run_app.
+    assert (Hcs : cs <> []).
+    { intros ->. cbn in Hc. unfold message_bytes, msg_bytes in Hc. destruct (m_L m); discriminate. }
+    rewrite (conn_run_single cs (PFirst []) (m_L m) (m_H m) (m_body m) Hcs).
+    + rewrite (IH Hwf'). reflexivity.
+    + intros p q E Hp Hq. subst cs.
+      apply (message_prefix_waiting kind_resp parse_fl parse_hd _ _ _ _ _ WH (m_B m) (m_body m) WB p q Hne Hp Hq Hc).
+    + apply (message_segmentation kind_resp parse_fl parse_hd _ _ _ _ _ WH (m_B m) (m_body m) WB cs Hne Hc).
+Qed.
+End Conn.
+
+Lemma srv_emit_wait s : waiting s -> srv_emit s = None.
+Proof. destruct s as [| | ? ? [?|] [?|] ?| | | | |]; cbn; intros H; try reflexivity; contradiction. Qed.
+Lemma cli_emit_wait s : waiting s -> cli_emit s = None.
+Proof. destruct s as [| | ? ? [?|] [?|] ?| | | | |]; cbn; intros H; try reflexivity; contradiction. Qed.
+
+Theorem server_keepalive parse_fl parse_hd ms css :
+  Forall (wf_message false parse_fl parse_hd) ms ->
+  Forall2 (fun m cs => Forall nonempty cs /\ concat cs = message_bytes m) ms css ->
+  conn_run false parse_fl parse_hd srv_emit (PFirst []) (concat css) = (PFirst [], map message_event ms).
+Proof. apply keepalive_segmentation; [exact srv_emit_wait|reflexivity]. Qed.
+
+Theorem client_keepalive parse_fl parse_hd ms css :
+  Forall (wf_message true parse_fl parse_hd) ms ->
+  Forall2 (fun m cs => Forall nonempty cs /\ concat cs = message_bytes m) ms css ->
+  conn_run true parse_fl parse_hd cli_emit (PFirst []) (concat css) = (PFirst [], map message_event ms).
+Proof. apply keepalive_segmentation; [exact cli_emit_wait|reflexivity]. Qed.
+
+(* ================= what the repaired code still gets wrong ================= *)
+(* a response without any header field whose body arrives in a later read than the empty line: one-piece
+   delivery waits forever in the header phase, the segmented one raises (None -= int) *)
+Definition hl_fl : list N -> option bool := fun _ => Some false.
+Definition hl_hd : list N -> option (option Z * bool) := fun _ => None.
+Definition hl_head : list N := [72;84;84;80;47;49;46;48;32;50;48;48;32;79;75;13;10;13;10]. (* HTTP/1.0 200 OK CRLF CRLF *)
+Definition hl_body : list N := [104;105].
+
+Theorem headerless_response_refuted :
+  exists parse_fl parse_hd cs1 cs2,
+    Forall nonempty cs1 /\ Forall nonempty cs2 /\ concat cs1 = concat cs2 /\
+    run true parse_fl parse_hd (PFirst []) cs1 <> run true parse_fl parse_hd (PFirst []) cs2.
+Proof.
+  exists hl_fl, hl_hd, [hl_head ++ hl_body], [hl_head; hl_body].
+  repeat split.
+  - repeat constructor; discriminate.
+  - repeat constructor; discriminate.
+  - vm_compute. discriminate.
+Qed.
+
+(* ================= example data for the non-vacuity Examples of Props/C13.v ================= *)
+Definition ex_L : list N := [80;79;83;84;32;47;32;72;84;84;80;47;49;46;49].    (* POST / HTTP/1.1 *)
+Definition ex_fl (l : list N) : option bool := if list_eqb l ex_L then Some false else None.
+Definition ex_H : list N := [72;111;115;116;58;32;120;13;10;84;69;58;32;99].   (* "Host: x CRLF TE: c" *)
+Definition ex_hd (l : list N) : option (option Z * bool) := if list_eqb l ex_H then Some (None, true) else None.
+Definition ex_cks : list chunk := [ {| c_line := [51;59;120]; c_data := [97;13;10] |};    (* "3;x" "a CR LF" *)
+                                    {| c_line := [48;49];     c_data := [98] |} ].          (* "01" "b" *)
+Definition ex_B : list N := chunked_bytes ex_cks [48] [84;58;118;13;10;13;10].             (* "0" "T:v CRLF CRLF" *)
+
+Lemma ex_wf_head : wf_head ex_fl ex_hd ex_L ex_H false None true.
+Proof. constructor; vm_compute; reflexivity. Qed.
+Lemma ex_wf_body : wf_body false None true ex_B [97;13;10;98].
+Proof.
+  exists ex_cks, [48], [84;58;118;13;10;13;10]. repeat split; try (vm_compute; reflexivity).
+  - repeat constructor; try (vm_compute; reflexivity); discriminate.
+  - right. split; [reflexivity|]. exists [84;58;118]. split; vm_compute; reflexivity.
+Qed.
